@@ -842,11 +842,17 @@ var _ = token.NoPos
 // fnAlias: loaded function -> the reference name the rules know it under.
 var fnAlias sync.Map
 
+// declAlias: the same for the declared object (the AST-based engines name functions by it).
+var declAlias sync.Map
+
 func (c *Ctx) applyAliases(alias map[string]string) {
 	for cur, ref := range alias {
 		if fn, ok := c.byName[cur]; ok {
 			fnAlias.Store(fn, ref)
 			c.byName[ref] = fn
+			if obj, isFunc := fn.Object().(*types.Func); isFunc {
+				declAlias.Store(obj, ref)
+			}
 		}
 	}
 }
